@@ -209,12 +209,15 @@ func (e *DocumentError) SourceSubString() string {
 	begin := e.lineBeginning()
 	end := e.lineEnd()
 
-	if end-begin > maxLength {
-		end = begin + maxLength - 3
-		return string(content[begin:end].TrimSpacesFromLeft()) + "..."
+	// The line is trimmed first and truncated afterwards: the caret is computed
+	// relative to the trimmed line, and the length limit applies to the shown text.
+	line := content[begin:end].TrimSpacesFromLeft()
+
+	if len(line) > maxLength {
+		return string(line[:maxLength-3]) + "..."
 	}
 
-	return string(content[begin:end].TrimSpacesFromLeft())
+	return string(line)
 }
 
 func (e *DocumentError) pointerToTheErrorCharacter() string {
